@@ -90,6 +90,8 @@ class RejSpec(c09.ListSpec):
         if self.kind in ('segment', 'message'):
             r.append(('rej_trav_value',))
             r.append(('rej_trav_assign',))
+            r.append(('rej_trav_level',))
+            r.append(('rej_trav_version',))
         if self.level == STRICT:
             r.append(('rej_overflow', n0))
             r.append(('rej_value_overflow',))
@@ -181,6 +183,18 @@ class RejSpec(c09.ListSpec):
                 r.pid_7.ts_1 = 'bad' if self.level == STRICT else Field('PID_3', version=V, validation_level=lvl)
             else:
                 r.pd1.pd1_13 = 'bad' if self.level == STRICT else Segment('PID', version=V, validation_level=lvl)
+        elif k in ('rej_trav_level', 'rej_trav_version'):
+            # an element refused at admission (other level / version) assigned at the end of a traversal over elements
+            # that do not exist yet: nothing of the path may stay behind
+            lv, ve = (oth, V) if k == 'rej_trav_level' else (lvl, '2.4')
+            if self.kind == 'segment':
+                c = Component('TS_1', version=ve, validation_level=lv)
+                c.value = '2020'
+                r.pid_7.ts_1 = c
+            else:
+                f = Field('PD1_3', version=ve, validation_level=lv)
+                f.value = 'x'
+                r.pd1.pd1_3 = f
         elif k == 'rej_value_overflow':
             # a value whose children are refused midway (two children where one is allowed, STRICT) or an element of
             # another segment in the middle
